@@ -661,6 +661,20 @@ pub async fn run_server(
     exec: SimExecutor,
     shutdown: Option<tokio::sync::oneshot::Receiver<()>>,
 ) -> Result<(), hyperdriver::server::ServerError> {
+    run_server_opts(acceptor, proto, tls, ctx, exec, shutdown, false).await
+}
+
+/// `native_h1`: an http1-only server is configured by hyperdriver's own `with_http1()` (its Date
+/// header has a fixed length, unlike HTTP/2's HPACK-coded one, so runs still replay).
+pub async fn run_server_opts(
+    acceptor: SimAcceptor,
+    proto: ServerProto,
+    tls: Option<Arc<rustls::ServerConfig>>,
+    ctx: HandlerCtx,
+    exec: SimExecutor,
+    shutdown: Option<tokio::sync::oneshot::Receiver<()>>,
+    native_h1: bool,
+) -> Result<(), hyperdriver::server::ServerError> {
     use hyperdriver::info::HasConnectionInfo;
     use hyperdriver::server::conn::Acceptor;
     let acc = Acceptor::new(acceptor);
@@ -696,6 +710,7 @@ pub async fn run_server(
             p.http2().auto_date_header(false);
             b.with_protocol(p).with_executor(exec).with_graceful_shutdown(signal).await
         }
+        ServerProto::H1 if native_h1 => b.with_http1().with_executor(exec).with_graceful_shutdown(signal).await,
         ServerProto::H1 => {
             let mut p = hyperdriver::server::conn::http1::Builder::new();
             p.auto_date_header(false);
